@@ -304,6 +304,102 @@ def check_vectors(rep, proj):
         rep.bad("C01.vector", co.site, co.fq, f"{type(e).__name__}: {e}")
 
 
+def eko_blocks(n, degree):
+    """eko.interpolation.InterpolatorDispatcher: the block (kmin, kmax) of grid nodes whose Lagrange polynomials live on the area
+    [x_i, x_{i+1}] - symmetric around the area, clipped at the lower edge and SHIFTED at the upper edge (written from eko's documentation
+    of the algorithm; agrees with the installed source)."""
+    po2 = degree // 2
+    if degree % 2 == 0:
+        po2 -= 1
+    blocks = []
+    for i in range(n - 1):
+        kmin = max(0, i - po2)
+        kmax = kmin + degree
+        if kmax >= n:
+            kmax = n - 1
+            kmin = kmax - degree
+        blocks.append((kmin, kmax))
+    return blocks
+
+
+def check_vector_support(rep, proj):
+    """convolve_vector on CONCRETE interpolators (7 nodes, degrees 1..4, linear grid, eko's own stencil layout) and convolution points in
+    every area and on every node: column j of the result is the convolution with basis function j at that point - unless the support of
+    basis function j lies entirely at or below the point, where the convolution is 0 by itself and may be skipped.  (A short cut that finds
+    the first contributing polynomial by index arithmetic is accepted exactly when it agrees with the stencil, upper edge included.)"""
+    cv = proj.func(CONV, "convolve_vector")
+    n = 7
+    grid = [Fraction(k + 1, n) for k in range(n)]  # 1/7 ... 1
+    points = sorted(set([(a + b) / 2 for a, b in zip(grid[:-1], grid[1:])] + grid[:-1] + [Fraction(1, 14)]))
+    decided = 0
+    for degree in (1, 2, 3, 4):
+        blocks = eko_blocks(n, degree)
+        supports = []
+        basis = []
+        for j in range(n):
+            areas_j = [i for i, (kmin, kmax) in enumerate(blocks) if kmin <= j <= kmax]
+            supports.append((grid[areas_j[0]], grid[areas_j[-1] + 1]))
+            top = grid[areas_j[-1] + 1]
+            basis.append(S.record(f"bf{j}", poly_number=j, areas=[S.record("area", xmin=grid[i], xmax=grid[i + 1]) for i in areas_j], _mode_log=False,
+                                  is_below_x=S._NativeFn(lambda xx, top=top: bool(top <= S.num_norm(xx)))))
+        for pt in points:
+            calls = []
+
+            def convolution(ev, rsl, x, pdf, *a, **k):
+                calls.append((rsl, S.num_norm(x), pdf))
+                j = basis.index(pdf) if pdf in basis else -1
+                if j >= 0 and supports[j][1] <= S.num_norm(x):
+                    return (0.0, 0.0)  # what the real routine returns for a basis function living below the point
+                return (A.opaque("C", (j,)), A.opaque("E", (j,)))
+
+            def searchsorted(ev_, a, v, side="left", sorter=None):
+                import bisect
+
+                seq = [S.num_norm(t) for t in (a.data if isinstance(a, S.Arr) else a)]
+                v = S.num_norm(v)
+                if any(isinstance(t, A.Rat) for t in seq + [v]):
+                    raise A.Undecided("searchsorted on symbolic values")
+                return (bisect.bisect_left if side == "left" else bisect.bisect_right)(seq, v)
+
+            ev = S.Evaluator(proj, lenient_ext=True, ext_calls={
+                "numpy.searchsorted": searchsorted,
+                "numpy.digitize": lambda ev_, v, bins, right=False: searchsorted(ev_, bins, v, "left" if right else "right")})
+            ev.summaries[f"{CONV}::convolution"] = convolution
+            xg = S.record("xgrid", raw=S.Arr(list(grid)), size=n, log=False)
+            xg.store["__list__"] = list(grid)
+            interp = S.record("interp", xgrid=xg, polynomial_degree=degree, log=False)
+            interp.store["__list__"] = basis
+            rsl = S.record("rsl")
+            construct = f"{cv.fq}[degree {degree}, point {pt} of grid k/7]"
+            try:
+                r = ev.call(S.FuncVal(ev, cv), [rsl, interp, pt], {})
+                vals = list(r[0].data) if isinstance(r, tuple) and isinstance(r[0], S.Arr) else None
+                errs = list(r[1].data) if isinstance(r, tuple) and isinstance(r[1], S.Arr) else None
+                if vals is None or errs is None or len(vals) != n or len(errs) != n:
+                    rep.bad("C01.vector", cv.site, construct, f"does not return one value and one error per basis function: {r}")
+                    continue
+                wrong = []
+                for j in range(n):
+                    v, e = A.canon(S.num_norm(vals[j])), A.canon(S.num_norm(errs[j]))
+                    live = supports[j][1] > pt
+                    if live and (v != f"C({j})" or e != f"E({j})"):
+                        wrong.append(f"column {j} (support {supports[j][0]}..{supports[j][1]} reaches above the point) holds {v} / {e}")
+                    zero = lambda t: not isinstance(S.num_norm(t), A.Rat) and S.num_norm(t) == 0  # noqa: E731
+                    if not live and not ((zero(vals[j]) or v == f"C({j})") and (zero(errs[j]) or e == f"E({j})")):
+                        wrong.append(f"column {j} (support entirely below the point) holds {v} / {e}")
+                if any(c[0] is not rsl or c[1] != pt for c in calls):
+                    wrong.append("a convolution was taken with another kernel or at another point")
+                decided += 1
+                rep.check(not wrong, "C01.vector", cv.site, construct,
+                          "every basis function whose support reaches above the convolution point has its own convolution in its own column",
+                          "; ".join(wrong[:3]))
+            except A.Undecided as e:
+                rep.undecided("C01.vector", cv.site, construct, str(e))
+            except S.Raised as e:
+                rep.bad("C01.vector", cv.site, construct, f"raises {e.etype}: {e.msg}")
+    rep.floor("C01.vector concrete interpolator x point combinations decided", decided, 4 * len(points))
+
+
 def _point_job(kw):
     from .. import model
 
@@ -313,7 +409,8 @@ def _point_job(kw):
     except O.FoldFailure as f:
         return ("fold", f.outcome.status, f"{f.outcome.etype} {f.outcome.msg}"[:160])
     two = {"xB": A.sym("xB", True) * 2}
-    bad = []
+    # (a convolution that is handed the basis function's value at ANOTHER point than its convolution point is not x (C (x) b_j))
+    bad = sorted(set(getattr(op.ev, "mixed_points", [])))[:2]
     n_atoms = 0
     points = set()
     for key, (vals, errs) in op.orders.items():
@@ -416,6 +513,7 @@ def run(rep, proj, tier):
     rep.assumptions = ["weights are independent of the requested x (used to separate the factor x from the weight)"]
     check_convolution(rep, proj)
     check_vectors(rep, proj)
+    check_vector_support(rep, proj)
     check_points(rep, proj, tier)
     # an entry can only be THE integral of its coefficient function if that function is one function: parts that change from one evaluation
     # to the next (state kept in a captured container) make every quadrature integrate something else at each call
